@@ -48,9 +48,30 @@ type propCfg struct {
 	Rule      string
 	Assume    []string
 	GoMaxProc string
+	Batch     int // isolated properties: runs per fresh child process
 }
 
 var props = map[string]*propCfg{
+	"C19": {
+		ID: "C19", Pkg: "./c19/", Level: "exploration", Race: true, Batch: 8,
+		Quick:    tierCfg{Runs: 3000, Budget: 300 * time.Second, Workers: 16},
+		Thorough: tierCfg{Runs: 600000, Budget: 45 * time.Minute, Workers: 16},
+		Assume: []string{
+			"context switches happen at the simhook yield points only (Vertex.unify, label interning, builtin/instance index, type caches); the race detector covers memory-level races between any two accesses that both happen in a run, wherever the switches were",
+			"the sequential reference is computed after the concurrent phase on a fresh context in the same process (label indexes are process-global)",
+			"GOMAXPROCS=1 inside the worker; the hand-off between tasks creates no happens-before edge",
+		},
+	},
+	"C17": {
+		ID: "C17", Pkg: "./c17/", Level: "exploration",
+		Quick:    tierCfg{Runs: 5000, Budget: 240 * time.Second, Workers: 16},
+		Thorough: tierCfg{Runs: 800000, Budget: 45 * time.Minute, Workers: 16},
+		Assume: []string{
+			"the registry and all file systems are in-memory stubs; error texts of the real registry are not modelled",
+			"the module-file round-trip clause (Parse(Format(f)) = f, unknown fields rejected) is a pure function and is exercised only in so far as every tidy result is formatted, re-parsed and tidied again",
+			"memory-level races inside the loader are not visible to this back-end (DESIGN §7)",
+		},
+	},
 	"C16": {
 		ID: "C16", Pkg: "./c16/", Level: "fault_enumeration",
 		Quick:    tierCfg{Runs: 4000, Budget: 240 * time.Second, Workers: 16},
@@ -161,6 +182,10 @@ func runWorker(bin string, job *sim.Job, p *propCfg, extraEnv ...string) workerE
 	cmd := exec.Command(bin, "-test.run", "^TestWorker$", "-test.timeout", "0", "-test.count", "1")
 	cmd.Dir = job.OutDir
 	cmd.Env = append(os.Environ(), "CUESIM_JOB="+jobPath)
+	if p.Race {
+		rl := filepath.Join(job.OutDir, fmt.Sprintf("race.%d", job.Worker))
+		cmd.Env = append(cmd.Env, "CUESIM_RACELOG="+rl, "GORACE=log_path="+rl+" halt_on_error=0 history_size=3 atexit_sleep_ms=0", "GOMAXPROCS=1")
+	}
 	cmd.Env = append(cmd.Env, extraEnv...)
 	var sb, so strings.Builder
 	cmd.Stderr = &sb
@@ -280,7 +305,7 @@ func check(p *propCfg, tier string) int {
 		go func(w int) {
 			defer wg.Done()
 			job := &sim.Job{Mode: "explore", Property: p.ID, Tier: tier, Seed: seed, Worker: w, Workers: workers, Runs: tc.Runs,
-				Deadline: deadline, OutDir: outDir, MaxViol: 2, Known: known, ShrinkSecs: 20}
+				Deadline: deadline, OutDir: outDir, MaxViol: 2, Known: known, ShrinkSecs: 20, Batch: p.Batch}
 			exits[w] = runWorker(bin, job, p)
 		}(w)
 	}
@@ -608,7 +633,7 @@ func selftest(p *propCfg, n int) bool {
 			procs++
 			go func(w int) {
 				defer wg.Done()
-				job := &sim.Job{Mode: "hashes", Property: p.ID, Tier: "quick", Seed: seed, Worker: w, Workers: c.workers, Runs: n, OutDir: dir, MaxViol: 1}
+				job := &sim.Job{Mode: "hashes", Property: p.ID, Tier: "quick", Seed: seed, Worker: w, Workers: c.workers, Runs: n, OutDir: dir, MaxViol: 1, Batch: 1}
 				env := []string{}
 				if !p.Race {
 					env = append(env, "GOMAXPROCS="+c.procs)
